@@ -16,7 +16,7 @@ from ..axmlgen import Axml
 from . import c31
 
 KINDS = ["RSA", "EC", "DSA"]
-NOATTRS = dict(present=False, ctype="", digest=["", ""])
+NOATTRS = dict(present=False, ctype="", digest=["", ""], order="")
 ABSENT = ["absent", ""]
 SF0 = (b"Signature-Version: 1.0\r\nCreated-By: 1.0 (Android)\r\nSHA-256-Digest-Manifest: 3nRWZ6JEbZ1qXrwDFdXpWnsAjzaOCvbTMW5dL0cYzsE=\r\n\r\n"
        b"Name: classes.dex\r\nSHA-256-Digest: 47DEQpj8HBSa+/TImW+5JCeuQeRkm5NMpJWZG3hSuFU=\r\n\r\n")
@@ -82,11 +82,24 @@ def cms_attrs(a):
         out.append(cms.CMSAttribute({"type": "content_type", "values": ["data" if a["ctype"] == "data" else "signed_data"]}))
     if a["digest"] != ABSENT:
         out.append(cms.CMSAttribute({"type": "message_digest", "values": [hashlib.new(a["digest"][0], sf_bytes(a["digest"][1])).digest()]}))
-    return cms.CMSAttributes(out)
+    der = cms.CMSAttributes(out)
+    if a.get("order") != "swapped" or len(out) < 2:
+        return der
+    # the same attributes in the reverse of their DER order, byte for byte as a signer not sorting the SET OF would store them
+    parts = sorted((x.dump() for x in out), reverse=True)
+    body = b"".join(parts)
+    head = bytes([0x31, len(body)]) if len(body) < 128 else bytes([0x31, 0x81, len(body)])
+    return cms.CMSAttributes.load(head + body)
+
+
+def attrs_bytes(a):
+    """the bytes a verifier presents for signed attributes: as stored, with the universal SET tag"""
+    d = cms_attrs(a).dump()
+    return b"\x31" + d[1:]
 
 
 def message(over):
-    return sf_bytes(over["sf"]) if over["kind"] == "sf" else cms_attrs(over["attrs"]).dump()
+    return sf_bytes(over["sf"]) if over["kind"] == "sf" else attrs_bytes(over["attrs"])
 
 
 def sign(kind, keyname, msg, alg):
@@ -140,7 +153,7 @@ def realise(b, kind):
             d["signed_attrs"] = cms_attrs(si["attrs"])
         infos.append(cms.SignerInfo(d))
         # cross-check of the abstraction: SigOK of the spec <=> the real signature verifies over what a verifier presents
-        presented = cms_attrs(si["attrs"]).dump() if si["attrs"]["present"] else sf
+        presented = attrs_bytes(si["attrs"]) if si["attrs"]["present"] else sf
         for c, der in zip(b["certs"], certs):
             abstract = si["sig"] == dict(key=c["key"], over=(dict(kind="attrs", sf="", attrs=si["attrs"]) if si["attrs"]["present"] else dict(kind="sf", sf=b["sf"], attrs=NOATTRS)))
             if abstract != verify_direct(kind, der, sig, presented, si["alg"]):
@@ -228,8 +241,8 @@ C2 = dict(issuer="i2", serial=2, key="k2")
 C1B = dict(issuer="i1", serial=1, key="k3")
 
 
-def attrs(ctype, digest):
-    return dict(present=True, ctype=ctype, digest=digest)
+def attrs(ctype, digest, order="der"):
+    return dict(present=True, ctype=ctype, digest=digest, order=order)
 
 
 def over(a, sf="sf0"):
@@ -250,7 +263,8 @@ def random_block(rnd):
     sis = []
     for _ in range(rnd.randrange(1, 4)):
         wa = rnd.random() < 0.5
-        t = rnd.choice(["none", "none", "sig", "sid_serial", "sid_other", "other_key", "attr_digest", "attr_digest_resigned", "attr_ctype", "attr_noctype", "attr_nodigest"])
+        t = rnd.choice(["none", "none", "sig", "sid_serial", "sid_other", "other_key", "attr_digest", "attr_digest_resigned", "attr_ctype", "attr_noctype", "attr_nodigest",
+                        "attr_reordered", "attr_reordered", "attr_reordered_signed"])
         s = signer(alg, wa)
         if t == "sig":
             s["sig"]["key"] = "garbage@%d" % rnd.randrange(300)
@@ -270,6 +284,10 @@ def random_block(rnd):
             s = signer(alg, True, shown=attrs("absent", [alg, "sf0"]))
         elif wa and t == "attr_nodigest":
             s = signer(alg, True, shown=attrs("data", ABSENT))
+        elif wa and t == "attr_reordered":           # stored in another order than the one that was signed
+            s = signer(alg, True, shown=attrs("data", [alg, "sf0"], "swapped"), signed=attrs("data", [alg, "sf0"]))
+        elif wa and t == "attr_reordered_signed":    # signed in the order it is stored in
+            s = signer(alg, True, shown=attrs("data", [alg, "sf0"], "swapped"))
         sis.append(s)
     bag = rnd.choice([[C1], [C1, C2], [C2, C1], [C1B, C1], [C2], [C1, C1B, C2]])
     return dict(sf=rnd.choice(["sf0", "sf0", "sf0", "sf@%d" % rnd.randrange(len(SF0))]), certs=bag, sis=sis, minsdk=rnd.choice([0, 21, 24, 30]))
